@@ -45,6 +45,7 @@ type kindFacts struct {
 	kind      int64
 	listAttr  bool                 // Entry.ListAttr != nil
 	isTarget  func(ssa.Value) bool // the value denotes the entry whose kind is fixed
+	zero      map[*types.Var]tri   // fields of the object itself known to hold (true) or not to hold (false) their zero value
 	given     map[*types.Var]tri   // fields of the *other* entry in play (the deviate statement's): non-zero or not
 	isOther   func(ssa.Value) bool // the value denotes that other entry
 	depth     int
@@ -127,6 +128,46 @@ func (k *kindFacts) evalBinOp(bo *ssa.BinOp, depth int) tri {
 		if x, isEq, okn := nilTest(bo); okn {
 			if _, f, base := loadedField(x); f == k.fListAttr && f != nil && base != nil && k.isTarget(base) {
 				return triOf(k.listAttr != isEq)
+			}
+			// the error a checking method of the entry answers with: nil or not, under the same facts
+			if call, isC := x.(*ssa.Call); isC && isErrorType(call.Type()) && depth < 4 {
+				if r := k.evalErrorCall(call, depth+1); r != triUnknown {
+					// r: the error is non-nil
+					if isEq {
+						return r.not()
+					}
+					return r
+				}
+			}
+		}
+	}
+	// a field of the object itself compared with its zero value
+	if k.zero != nil && (bo.Op == token.EQL || bo.Op == token.NEQ) {
+		for _, pair := range [][2]ssa.Value{{bo.X, bo.Y}, {bo.Y, bo.X}} {
+			kc, isK := pair[1].(*ssa.Const)
+			if !isK {
+				continue
+			}
+			isZ := kc.Value == nil
+			if !isZ {
+				switch kc.Value.Kind() {
+				case constant.Int:
+					n, _ := constant.Int64Val(kc.Value)
+					isZ = n == 0
+				case constant.String:
+					isZ = constant.StringVal(kc.Value) == ""
+				}
+			}
+			if !isZ {
+				continue
+			}
+			if _, f, base := loadedField(pair[0]); f != nil && base != nil && k.isTarget(base) {
+				if z, has := k.zero[f]; has && z != triUnknown {
+					if bo.Op == token.EQL {
+						return z
+					}
+					return z.not()
+				}
 			}
 		}
 	}
@@ -217,6 +258,69 @@ func (k *kindFacts) evalPredicate(fn *ssa.Function, depth int) tri {
 		}
 		r := inner.eval(rt.Results[0], st.b, st.pred, depth+1)
 		if r == triUnknown || n > 0 && r != out {
+			return triUnknown
+		}
+		out = r
+		n++
+	}
+	if n == 0 {
+		return triUnknown
+	}
+	return out
+}
+
+// evalErrorCall: whether a method of the entry that answers with an error answers with one (true) or with nil
+// (false) under the facts; the other entry in play is followed into the parameter it is handed as.
+func (k *kindFacts) evalErrorCall(call *ssa.Call, depth int) tri {
+	cal := call.Call.StaticCallee()
+	if cal == nil || cal.Blocks == nil || !k.c.isRepoFn(cal) || len(call.Call.Args) == 0 || len(cal.Params) != len(call.Call.Args) {
+		return triUnknown
+	}
+	if !k.isTarget(call.Call.Args[0]) {
+		return triUnknown
+	}
+	paramIs := func(v ssa.Value, want func(int) bool) bool {
+		for i, p := range cal.Params {
+			if !want(i) {
+				continue
+			}
+			if v == ssa.Value(p) {
+				return true
+			}
+			if ld, isL := v.(*ssa.UnOp); isL && ld.Op == token.MUL {
+				if a, isA := ld.X.(*ssa.Alloc); isA && spilledParam(a) == p {
+					return true
+				}
+			}
+		}
+		return false
+	}
+	inner := *k
+	inner.isTarget = func(v ssa.Value) bool {
+		return paramIs(v, func(i int) bool { return k.isTarget(call.Call.Args[i]) })
+	}
+	if k.isOther != nil {
+		inner.isOther = func(v ssa.Value) bool {
+			return paramIs(v, func(i int) bool { return !k.isTarget(call.Call.Args[i]) && k.isOther(call.Call.Args[i]) })
+		}
+	}
+	var out tri
+	n := 0
+	for _, st := range inner.walk(cal, nil) {
+		rt, isR := st.b.Instrs[len(st.b.Instrs)-1].(*ssa.Return)
+		if !isR || len(rt.Results) != 1 {
+			continue
+		}
+		var r tri
+		switch {
+		case isNilConst(rt.Results[0]):
+			r = triFalse
+		case definitelyNonNilErr(rt.Results[0]):
+			r = triTrue
+		default:
+			return triUnknown
+		}
+		if n > 0 && r != out {
 			return triUnknown
 		}
 		out = r
